@@ -375,6 +375,64 @@ def h_logic__reach(tmpl: int, ka: int, kb: int, a0: int, a1: int, b0: int, b1: i
     assert res != {"j1"}
 
 
+# ------------------------------------------------------------------------------------------------ one key mentioned twice; key names that start like a namespace
+VK = ["x", "y", None, 1.5]
+
+
+def h_logic_samekey(tmpl: int, k0: int, k1: int, k2: int, n0: int, n1: int, n2: int, v: int, w: int):
+    """compound filters that mention the SAME key in several sub-expressions (non-integer values: strings, None, a float), three jobs:
+    every sub-expression is evaluated on the jobs' own data, however often and in whatever branch order the key is used"""
+    assert 0 <= tmpl <= 5 and 0 <= k0 < 4 and 0 <= k1 < 4 and 0 <= k2 < 4 and 1 <= n0 <= 2 and 1 <= n1 <= 2 and 1 <= n2 <= 2 and 0 <= v < 4 and 0 <= w < 4 and part_ok(tmpl)
+    assert tier() != "quick" or (k2 <= 1 and w <= 1)
+    fresh_path()
+    tmpl, n0, n1, n2 = ci(tmpl, 0, 5), ci(n0, 1, 2), ci(n1, 1, 2), ci(n2, 1, 2)
+    K0, K1, K2, V, W = pick(VK, k0), pick(VK, k1), pick(VK, k2), pick(VK, v), pick(VK, w)
+    c = {"j0": ({"kind": K0, "n": n0}, None), "j1": ({"kind": K1, "n": n1}, {"kind": K2}), "j2": ({"kind": K2, "n": n2}, {"kind": K0})}
+    if tmpl == 0:
+        flt = {"$or": [{"kind": V, "n": 1}, {"kind": V, "n": 2}]}
+    elif tmpl == 1:
+        flt = {"$or": [{"kind": V, "n": 1}, {"$not": {"kind": V}}]}
+    elif tmpl == 2:
+        flt = {"$and": [{"kind": V, "n": 1}, {"$or": [{"kind": V}, {"n": 2}]}]}
+    elif tmpl == 3:
+        flt = {"kind": V, "n": 1, "$or": [{"kind": W}, {"kind": V}]}
+    elif tmpl == 4:
+        flt = {"$not": {"$and": [{"kind": V, "n": 1}, {"kind": V}]}}
+    else:
+        flt = {"$or": [{"doc.kind": V, "n": 1}, {"doc.kind": V, "kind": W}, {"$not": {"doc.kind": V}}]}
+    ok = agree(c, flt)
+    reached()
+    assert ok
+
+
+KEYN = ["speed", "docs", "spin", "doc_id", "sp", "document"]
+
+
+def h_keynames(kn: int, where: int, form: int, q: int, v0: int, v1: int):
+    """state point / document keys whose NAMES merely start like a namespace prefix ('speed', 'docs', ...): unqualified keys mean the state point"""
+    assert 0 <= kn < len(KEYN) and 0 <= where <= 1 and 0 <= form <= 4 and 0 <= q <= 2 and 0 <= v0 <= 2 and 0 <= v1 <= 2
+    fresh_path()
+    key, where, form, q, v0, v1 = pick(KEYN, kn), ci(where, 0, 1), ci(form, 0, 4), ci(q, 0, 2), ci(v0, 0, 2), ci(v1, 0, 2)
+    if key in ("sp", "doc") and form == 0 and where == 0:
+        key = key + "x"      # a bare 'sp' / 'doc' key IS the namespace
+    d0, d1 = ({key: v0} if v0 < 2 else {}), ({key: v1} if v1 < 2 else {})
+    c = {"j0": (d0, {"o": 1}), "j1": (d1, None)} if where == 0 else {"j0": ({"z": 0}, d0), "j1": ({"z": 1}, d1)}
+    ns = "sp." if where == 0 else "doc."
+    if form == 0:
+        flt = {key: q} if where == 0 else {ns + key: q}
+    elif form == 1:
+        flt = {ns + key: q}
+    elif form == 2:
+        flt = {(key if where == 0 else ns + key) + ".$exists": q >= 1}
+    elif form == 3:
+        flt = {"$not": {(key if where == 0 else ns + key): q}}
+    else:
+        flt = {ns[:-1]: {key: {"$lte": q}}}
+    ok = agree(c, flt)
+    reached()
+    assert ok
+
+
 def h_independence(i0: int, i1: int, q: int, kind: int):
     """whether j0 matches does not depend on j1 existing (and vice versa)"""
     assert 0 <= i0 < 10 and 0 <= i1 < 10 and 0 <= q < 10 and 0 <= kind <= 3 and part_ok(kind)
@@ -454,4 +512,6 @@ HARNESSES = [
     dict(name="h_near", timeout=(300, 900)),
     dict(name="h_logic", twin="h_logic__reach", timeout=(400, 900), parts=(10, 10)),
     dict(name="h_independence", timeout=(400, 900), parts=(4, 4)),
+    dict(name="h_logic_samekey", timeout=(400, 900), parts=(6, 6)),
+    dict(name="h_keynames", timeout=(300, 600)),
 ]
